@@ -97,6 +97,21 @@ Theorem loop_never_oversleeps : forall E s t1 d m c s' evs, Inv E s -> no_setnow
 Proof. exact Proofs.loop_never_oversleeps. Qed.
 Print Assumptions loop_never_oversleeps.
 
+Theorem ceil_seconds_round : forall t, 0 <= t ->
+  t <= ceil_seconds t < t + 1000000 /\ ceil_seconds t mod 1000000 = 0.
+Proof. exact Proofs.ceil_seconds_round. Qed.
+Print Assumptions ceil_seconds_round.
+
+Theorem ceil_seconds_negative_refuted : exists t, t < 0 /\ ~ (ceil_seconds t < t + 1000000).
+Proof. exact Proofs.ceil_seconds_negative_refuted. Qed.
+Print Assumptions ceil_seconds_negative_refuted.
+
+Theorem wait_for_ceil_rounding : forall E s e dt s' b, Inv E s ->
+  b = WaitForCeil e dt \/ b = UpdForCeil e dt -> exec_basic E s b = (s', OOk) ->
+  exists D, due s' e D /\ now s + dt <= D < now s + dt + 1000000 /\ D mod 1000000 = 0.
+Proof. exact Proofs.wait_for_ceil_rounding. Qed.
+Print Assumptions wait_for_ceil_rounding.
+
 Theorem no_internal_error : forall E s e t, Inv E s ->
   Z.max min_time_wait min_time_update <= t -> t <> 0 -> valid E e = true ->
   (handle_of s e = None -> snd (exec_basic E s (WaitUntil e t)) = OOk) /\
